@@ -1,3 +1,4 @@
+import AquaVerif.Proofs.RunLift
 import AquaVerif.Proofs.WaterDay
 import AquaVerif.Proofs.GwSeries
 /-
@@ -233,5 +234,59 @@ example : ∃ out, waterDay DayExample.Fq DayExample.Wq DayExample.fmq DayExampl
 example : gwVariable 5 [((1 : Int), (1 : ℚ)), (3, 2)] =
     [none, some 1, some (3 / 2), some 2, some 2] := by
   decide +kernel
+
+/-! ### every day of every run (`Proofs/RunLift.lean`) -/
+
+/-- **Run level.** With a water table the depth reported on a day (row and state) is the value of
+the configured daily series for that day, it is not negative, and the table is reported in the
+profile exactly when a compartment centre lies at or below it; without one the reported depth is
+0.  No premise. -/
+theorem run_reported_depth {F : Fn α} {T : TrigFn α} {cfg : RunCfg α} {s : RunState α}
+    (hr : RunReach F T cfg s) :
+    ∀ d ∈ s.daysRev,
+      (cfg.W0.waterTable = 1 →
+        d.r.flux.zGW = cfg.zgw d.D.tsc ∧ d.r.state.zGW = cfg.zgw d.D.tsc ∧
+        0 ≤ cfg.zgw d.D.tsc ∧
+        (d.r.water.wtInSoil = true ↔ ∃ x ∈ d.st.cells, cfg.zgw d.D.tsc ≤ x.c.zMid)) ∧
+      (cfg.W0.waterTable ≠ 1 → d.r.flux.zGW = 0 ∧ d.r.state.zGW = 0) :=
+  run_gw_depth hr
+
+/-- **Run level.** With a water table, at the end of every simulated day the adjusted field
+capacity lies within `[th_fc, th_s]`. -/
+theorem run_fcadj_range {F : Fn α} {T : TrigFn α} {cfg : RunCfg α} {s : RunState α}
+    (hC : CfgOK F T cfg) (hr : RunReach F T cfg s) (hR : ∀ d ∈ s.daysRev, ResidualW d)
+    (hwt : cfg.W0.waterTable = 1) :
+    ∀ d ∈ s.daysRev, ∀ y ∈ d.r.state.cells, y.c.thFC ≤ y.fcAdj ∧ y.fcAdj ≤ y.c.thS :=
+  run_gw_fcAdj hC hr hR hwt
+
+/-- **Run level.** With a water table, at the end of every simulated day every compartment whose
+centre lies at or below the configured table depth of that day is exactly saturated. -/
+theorem run_below_table_saturated {F : Fn α} {T : TrigFn α} {cfg : RunCfg α} {s : RunState α}
+    (hC : CfgOK F T cfg) (hr : RunReach F T cfg s) (hR : ∀ d ∈ s.daysRev, ResidualW d)
+    (hwt : cfg.W0.waterTable = 1) :
+    ∀ d ∈ s.daysRev, ∀ y ∈ d.r.state.cells, cfg.zgw d.D.tsc ≤ y.c.zMid → y.th = y.c.thS :=
+  run_gw_saturated hC hr hR hwt
+
+/-- **Run level.** Capillary rise with the explicit slack on every simulated day. -/
+theorem run_cr_le_fcadj_with_slack {F : Fn α} {T : TrigFn α} {cfg : RunCfg α} {s : RunState α}
+    (hC : CfgOK F T cfg) (hr : RunReach F T cfg s) (hR : ∀ d ∈ s.daysRev, ResidualW d)
+    (hwt : cfg.W0.waterTable = 1) :
+    ∀ d ∈ s.daysRev,
+      (∀ y ∈ d.r.water.crCells, ∃ x ∈ d.r.trace.f.cells, y.c = x.c ∧ y.fcAdj = x.fcAdj ∧
+        x.th ≤ y.th ∧ y.th ≤ max x.th (x.fcAdj + 1 / 20000)) ∧
+      0 ≤ d.r.flux.cr ∧ 0 ≤ d.r.water.dzFill ∧
+      |d.r.flux.cr - d.r.water.crAdded| ≤ d.r.water.dzFill * 1000 * (1 / 20000) :=
+  run_gw_capillary_slack hC hr hR hwt
+
+/-- **Run level.** Without a water table capillary rise and groundwater inflow are zero on every
+simulated day of every run and the adjusted field capacity is left alone — no hypothesis about
+computed values. -/
+theorem run_no_table_zero_fluxes {F : Fn α} {T : TrigFn α} {cfg : RunCfg α} {s : RunState α}
+    (hC : CfgOK F T cfg) (hr : RunReach F T cfg s) (hwt : cfg.W0.waterTable ≠ 1) :
+    ∀ d ∈ s.daysRev,
+      d.r.flux.cr = 0 ∧ d.r.water.crAdded = 0 ∧ d.r.flux.gwIn = 0 ∧
+      d.r.water.wtInSoil = false ∧
+      d.r.state.cells.map (·.fcAdj) = d.st.cells.map (·.fcAdj) :=
+  run_gw_none hC hr hwt
 
 end Aqua.C19
